@@ -94,11 +94,40 @@ pub enum ValParser {
     /// 64-bit ranged parsers whose bounds sit on the extremes of the type or are exclusive / empty
     /// (see `edge_language`)
     Edge(u8),
+    /// `EnumValueParser<SimEnum>`: the typed sibling of the possible-values parser
+    EnumVp,
 }
+
+/// A hand-implemented `ValueEnum` (no derive): `fast`, `slow` (alias `s`), and the hidden `hidden-one`
+/// (alias `hush`).
+#[derive(Clone, Copy, Debug, PartialEq, Eq)]
+pub enum SimEnum {
+    Fast,
+    Slow,
+    HiddenOne,
+}
+
+impl clap::ValueEnum for SimEnum {
+    fn value_variants<'a>() -> &'a [Self] {
+        &[SimEnum::Fast, SimEnum::Slow, SimEnum::HiddenOne]
+    }
+    fn to_possible_value(&self) -> Option<PossibleValue> {
+        Some(match self {
+            SimEnum::Fast => PossibleValue::new("fast"),
+            SimEnum::Slow => PossibleValue::new("slow").alias("s"),
+            SimEnum::HiddenOne => PossibleValue::new("hidden-one").alias("hush").hide(true),
+        })
+    }
+}
+
+/// The language of `ValParser::EnumVp`: (spelling, Debug text of the variant).
+pub const SIM_ENUM_LANGUAGE: &[(&str, &str)] = &[("fast", "Fast"), ("slow", "Slow"), ("s", "Slow"), ("hidden-one", "HiddenOne"), ("hush", "HiddenOne")];
 
 /// (unsigned target?, lowest, highest) of the language of `ValParser::Edge(k)`; lowest > highest = empty.
 pub fn edge_language(k: u8) -> (bool, i128, i128) {
-    match k % 10 {
+    match k % 12 {
+        10 => (true, 10, 99),                                // u64 .range(10..).range(..100): a later range keeps the earlier bound
+        11 => (false, -5, 5),                                // i64 .range(-5..).range(..=5)
         0 => (true, 0, -1),                                  // u64 ..0
         1 => (true, 0, -1),                                  // u64 0..0
         2 => (false, 0, -1),                                 // i64 ..i64::MIN
@@ -615,9 +644,12 @@ pub fn build_arg(a: &ArgSpec) -> Arg {
             ValParser::Boolish => x.value_parser(clap::builder::BoolishValueParser::new()),
             ValParser::Possible(pvs) => x.value_parser(PossibleValuesParser::new(pvs.iter().map(build_pv).collect::<Vec<_>>())),
             ValParser::Reject(bad) => x.value_parser(RejectParser { bad: bad.clone() }),
+            ValParser::EnumVp => x.value_parser(clap::builder::EnumValueParser::<SimEnum>::new()),
             ValParser::Edge(k) => {
                 use std::ops::Bound::{Excluded, Unbounded};
-                match k % 10 {
+                match k % 12 {
+                    10 => x.value_parser(clap::value_parser!(u64).range(10..).range(..100)),
+                    11 => x.value_parser(clap::value_parser!(i64).range(-5..).range(..=5)),
                     0 => x.value_parser(clap::value_parser!(u64).range(..0)),
                     1 => x.value_parser(clap::value_parser!(u64).range(0..0)),
                     2 => x.value_parser(clap::value_parser!(i64).range(..i64::MIN)),
